@@ -65,7 +65,7 @@ def run(R, tier, seed, driver_ok):
         X, y = zoo.blobs(rng, d, int(rng.randint(2, 5)))
         n = len(X)
         # the formulas are homogeneous: data in very small or very large units (exact power-of-two factors)
-        unit = float(2.0 ** rng.choice([0, 0, -30, -40, 20]))
+        unit = float(2.0 ** [0, -30, 0, -40, 20][rep % 5]) if rep < 5 else float(2.0 ** rng.choice([0, 0, -30, -40, 20]))   # (every unit on every run)
         X = X * unit
         R.count(f'unit-scale:2^{int(np.log2(unit))}')
         # ---------------- Covariance
@@ -133,21 +133,22 @@ def run(R, tier, seed, driver_ok):
                         R.violation('RCA/not-leading-directions', f'RCA(n_components={nc}): retained directions do not maximise total-to-within-chunk variance (ratios {got} vs best {mu[-k:]})', case)
             lines.append(f'rca_inner {n} {d} {bits(X)} ' + ' '.join(map(str, chunks.tolist()))); meta.append(('mat', Cin, 1e-12 * np.abs(Cin).max(), 'rca_inner', {'learner': 'RCA', 'X': X, 'chunks': chunks}))
         # ---------------- LFDA
-        for emb in ['weighted', 'orthonormalized', 'plain']:
+        for ei_, emb in enumerate(['weighted', 'orthonormalized', 'plain']):
+            variant = (rep * 3 + ei_ + seed) % 4     # duplicates / one-member class / two-member class / plain: each on every run
             kopt = [None, 1, 2, d - 1, d + 3][int(rng.randint(5))]
             nc = [None, 1, d][int(rng.randint(3))] if d > 1 else None
             Xl, yl = X, y
-            if rng.rand() < 0.35:
+            if variant == 0:
                 # exact duplicates inside a class: the k-th nearest same-class neighbour counts them
                 Xl = X.copy()
                 for _ in range(int(rng.randint(1, 3))):
                     c_ = int(rng.choice(np.unique(y))); mem = np.nonzero(y == c_)[0]
                     i_, j_ = rng.choice(mem, 2, replace=False)
                     Xl[j_] = Xl[i_]
-            elif rng.rand() < 0.4:
+            elif variant in (1, 2):
                 # a class smaller than k: clipping of k must stay local to that class
                 small = int(np.unique(y)[0]); keep = np.ones(n, bool)
-                idx = np.nonzero(y == small)[0]; keep[idx[int(rng.choice([1, 2])):]] = False     # two members, or a single one
+                idx = np.nonzero(y == small)[0]; keep[idx[variant:]] = False     # two members, or a single one
                 order = np.argsort(y != small, kind='stable')          # the small class comes first
                 Xl, yl = X[keep], y[keep]
                 o2 = np.argsort(yl != small, kind='stable'); Xl, yl = Xl[o2], yl[o2]
